@@ -141,7 +141,23 @@ class Canon:
                 if k not in self.ren:
                     self.ren[k] = f"sym#{len(self.ren)}"
                 return self.ren[k]
-            return ("sym", v.t.sexpr())
+            # compound term: rename the uninterpreted constants inside it by first occurrence
+            consts = []
+
+            def walk(t):
+                if z3.is_const(t) and t.decl().kind() == z3.Z3_OP_UNINTERPRETED:
+                    if all(not c.eq(t) for c in consts):
+                        consts.append(t)
+                for ch in t.children():
+                    walk(ch)
+            walk(v.t)
+            subs = []
+            for c in consts:
+                kk = ("symconst", c.sexpr())
+                if kk not in self.ren:
+                    self.ren[kk] = f"sym#{len(self.ren)}"
+                subs.append((c, z3.Const(self.ren[kk], c.sort())))
+            return ("sym", z3.substitute(v.t, *subs).sexpr() if subs else v.t.sexpr())
         if isinstance(v, tuple):
             if len(v) == 2 and v[0] == "$id":
                 obj = self.w.ghost.get("$ids", {}).get(v[1])
@@ -189,6 +205,10 @@ class Canon:
             return ("hm", v.name, self.c(v.obj))
         if hasattr(v, "canon"):
             return v.canon(self)
+        if type(v).__name__ == "SymRangeIter":
+            return ("symiter", self.c(v.pos), self.c(v.rng.stop), v.exhausted)
+        if type(v).__name__ == "SymRange":
+            return ("symrange", self.c(v.start), self.c(v.stop))
         if type(v).__name__ in ("_ListIter", "_LiveIter"):
             return ("iter", v.i, len(v.items) if hasattr(v, "items") else len(v.seq))
         if callable(v) and getattr(v, "_pyvc_native", False):
@@ -292,6 +312,15 @@ class Bisim:
         self.send_factory = None      # (w, last yielded value) -> value to send (default: a fresh opaque token)
         I.w.stubs["uuid.uuid4"] = lambda I_, a, k: self.fresh_shared("uuid", lambda n: Opaque(f"uuid{n}", {"token": "uuid", "isinstance_default": False}))
 
+        def mk_time(n):
+            t = I.w.real("time", fresh=True)          # A-TIME: arbitrary but monotone wall clock, same on both sides
+            prev = self.shared_values.get("time", [])
+            if prev:
+                I.w.add(ops.compare(">=", t, prev[-1]))
+            I.w.assumptions.add("A-TIME: wall clock arbitrary but monotone")
+            return t
+        I.w.stubs["time.time"] = lambda I_, a, k: self.fresh_shared("time", mk_time)
+
     def absgen_pair(self, name):
         """the 'same' abstract generator as seen by the implementation and by the reference"""
         return self.oracle.new_gen(name, self.impl), self.oracle.new_gen(name, self.ref)
@@ -367,6 +396,8 @@ class Bisim:
                 w.cover(f"{self.name}: terminated by {oi[0]}")
                 return
             # joint yield: cut point
+            if getattr(self, "generalize_counters", False):
+                self._havoc_counters()
             cn = Canon(w)
             cn.exclude = set(self.canon_exclude)      # (function qualname, local name) pairs abstracted away by a cut invariant
             for side in (self.impl, self.ref):
@@ -412,6 +443,41 @@ class Bisim:
                 self.script.append("throw(GeneratorExit subclass)")
             else:
                 raise EngineError(kind)
+
+    def _havoc_counters(self):
+        """loop invariant at a cut point inside `for i in range(a, b)` with symbolic bounds: the iterator position is
+        replaced by a fresh symbol K with  (position reached on this path) <= K <= b  and the loop variable by K-1.
+        This is a superset of the states reachable by further iterations, so the step explored from here covers every
+        later iteration; iterators of the two sides that are provably at the same position get the same K."""
+        import z3
+        from .vals import to_int_term
+        w = self.w
+        its = [it for it in w.ghost.get("$symiters", []) if not it.exhausted and it.owner is not None]
+        groups = []
+        for it in its:
+            for g in groups:
+                same_pos = ops.eq(g[0].pos, it.pos)
+                if same_pos is True or (same_pos is not False and not w.feasible(ops.not_(same_pos))):
+                    g.append(it)
+                    break
+            else:
+                groups.append([it])
+        for g in groups:
+            k = w.int("K", fresh=True)
+            w.add(ops.compare(">=", k, g[0].pos))
+            for it in g:
+                fr, var = it.owner
+                if var not in fr.vars:
+                    raise EngineError("counter generalisation: loop variable not bound at the cut point")
+                rel = ops.eq(fr.vars[var], ops.binop("-", it.pos, 1))
+                if not (rel is True or (rel is not False and not w.feasible(ops.not_(rel)))):
+                    raise EngineError("counter generalisation: loop variable is not (iterator position - 1) at the cut point")
+            for it in g:
+                if it.rng.stop is not None:
+                    w.add(ops.compare("<=", k, it.rng.stop))
+                it.pos = k
+                fr, var = it.owner
+                fr.vars[var] = ops.binop("-", k, 1)
 
     def _side_key(self, cn, side):
         g = side.gen
